@@ -127,6 +127,7 @@ class Prog(object):
         self.decoys = 0
         self.rename_locals = False
         self.nosource = False       # callees defined through exec: no retrievable source
+        self.falsy_inst = False     # method route: the instance's truth value is False (an empty container)
         self.source = None
 
     @property
@@ -147,13 +148,14 @@ class Prog(object):
         return {'outer': '(%s)' % param_list_src(self.outer),
                 'callees': {k: '(%s)' % param_list_src(v) for k, v in self.callees.items()},
                 'calls': [c.describe() for c in self.calls], 'context': self.context,
-                'route': self.route, 'taint': self.taint, 'decoys': self.decoys, 'nosource': self.nosource}
+                'route': self.route, 'taint': self.taint, 'decoys': self.decoys, 'nosource': self.nosource,
+                'falsy_inst': self.falsy_inst}
 
     # ------------------------------------------------------------ rendering
     def callee_expr(self, key):
         if self.route == 'global':
             return key
-        if self.route == 'closure':
+        if self.route in ('closure', 'closure_stack'):
             return 'c_' + key
         if self.route == 'attribute':
             return 'ns.sub.' + key
@@ -300,6 +302,8 @@ class Prog(object):
             cal_defs.append(('def %s(%s):' % (key, sig), '    return None'))
         if self.route == 'method':
             lines.append('class K(object):')
+            if self.falsy_inst:
+                lines += ['    def __len__(self):', '        return 0']
             for d in cal_defs:
                 lines += ['    ' + d[0], '    ' + d[1]]
             sig = ', '.join(x for x in ['self', outer_src] if x)
@@ -320,7 +324,7 @@ class Prog(object):
                 lines += ['class NS(object):', '    pass', 'ns = NS()', 'ns.sub = NS()']
                 for key in self.callees:
                     lines.append('ns.sub.%s = %s' % (key, key))
-            if self.route == 'closure':
+            if self.route in ('closure', 'closure_stack'):
                 keys = list(self.callees)
                 for k in keys:
                     # a module global of the same name as the closure variable, bound to
@@ -330,7 +334,13 @@ class Prog(object):
                 lines.append('    def wrapper(%s):' % outer_src)
                 lines += ['        ' + b for b in body]
                 lines.append('    return wrapper')
-                lines.append('wrapper = make_(%s)' % ', '.join(keys))
+                if self.route == 'closure_stack':
+                    # the same pass-through applied twice: two function objects that share ONE code
+                    # object, the outer forwarding to the inner, the inner to the callee
+                    lines.append('stk_ = make_(%s)' % ', '.join(keys))
+                    lines.append('wrapper = make_(%s)' % ', '.join(['stk_'] + keys[1:]))
+                else:
+                    lines.append('wrapper = make_(%s)' % ', '.join(keys))
             elif self.route == 'parameter':
                 sig = ', '.join(x for x in ['fparam', outer_src] if x)
                 lines.append('def wrapper_(%s):' % sig)
@@ -407,6 +417,10 @@ def gen_programs(rng, count, tainted=False, contexts=None, routes=None, valid_on
         tries += 1
         p = Prog()
         p.outer = rng.choice(outers)
+        if routes == ['closure_stack'] and rng.random() < 0.7:
+            # stacking one pass-through on itself repeats the wrapper's own named parameters (a name
+            # clash, hence the fallback): mostly star-only wrappers
+            p.outer = rng.choice([o for o in outers if all(q[1] in ('VP', 'VK') for q in o)])
         # positional-only wrapper parameters cannot carry the method route's self
         p.route = rng.choice(routes)
         if p.route in ('method', 'parameter', 'param_default') and any(k == 'PO' for (_, k, _, _, _) in p.outer):
@@ -482,6 +496,9 @@ def gen_programs(rng, count, tainted=False, contexts=None, routes=None, valid_on
         p.decoys = rng.choice([0, 0, 1, 2])
         p.rename_locals = rng.random() < 0.3
         p.nosource = p.route != 'method' and rng.random() < 0.12
+        # every second method program: an instance whose truth value is False (no draw from rng:
+        # the stream of programs stays what it was)
+        p.falsy_inst = p.route == 'method' and (len(p.outer) + p.decoys + len(p.calls)) % 2 == 0
         if tainted:
             stars = [s for s, present in (('args', has_va), ('kwargs', has_vk)) if present]
             star = rng.choice(stars)
